@@ -174,11 +174,37 @@ type docSet struct {
 	nCore int
 	// nSmall: documents [0,nSmall) have at most 4 nodes (Docs enumerates by node count)
 	nSmall int
+	// wideFrom: documents [wideFrom,nCore) are the wide and big documents (they belong to every
+	// document subset)
+	wideFrom int
+}
+
+// indices lists the documents a ladder is evaluated on.
+func (ds *docSet) indices(l *gen.Ladder) []int {
+	var out []int
+	switch {
+	case l.SmallDocs && ds.nSmall > 0:
+		for i := 0; i < ds.nSmall; i++ {
+			out = append(out, i)
+		}
+		for i := ds.wideFrom; i < ds.nCore; i++ {
+			out = append(out, i)
+		}
+	case l.CoreDocs && ds.nCore > 0:
+		for i := 0; i < ds.nCore; i++ {
+			out = append(out, i)
+		}
+	default:
+		for i := 0; i < ds.n(); i++ {
+			out = append(out, i)
+		}
+	}
+	return out
 }
 
 func newDocSet(spec gen.DocSpec, modes []int) *docSet {
-	base := append(append(gen.Docs(spec), gen.WideDocs()...), gen.MemberDocs()...)
-	ds := &docSet{modes: modes, nCore: len(base) - len(gen.MemberDocs())}
+	base := append(append(append(gen.Docs(spec), gen.WideDocs()...), gen.BigDocs()...), gen.MemberDocs()...)
+	ds := &docSet{modes: modes, nCore: len(base) - len(gen.MemberDocs()), wideFrom: len(gen.Docs(spec))}
 	small := spec
 	if small.MaxNodes > 4 {
 		small.MaxNodes = 4
@@ -360,15 +386,9 @@ func (j *productJob) RunUnit(i int, c *run.Ctx) {
 	if u.L.Modes != nil {
 		modes = u.L.Modes
 	}
-	nDocs := j.ds.n()
-	if u.L.CoreDocs && j.ds.nCore > 0 && j.ds.nCore < nDocs {
-		nDocs = j.ds.nCore
-	}
-	if u.L.SmallDocs && j.ds.nSmall > 0 && j.ds.nSmall < nDocs {
-		nDocs = j.ds.nSmall
-	}
+	docIdx := j.ds.indices(u.L)
 	for _, m := range modes {
-		for di := 0; di < nDocs; di++ {
+		for _, di := range docIdx {
 			c.Tick()
 			doc := j.ds.docs[m][di]
 			var st *spec.Stepper
@@ -462,6 +482,8 @@ func stdLadders(tier string) []gen.Ladder {
 	return []gen.Ladder{
 		{Alpha: gen.SigmaFull(), Depth: 2, Funcs: gen.FuncSuffixes(), FuncDepth: 2},
 		{Alpha: gen.SigmaMid(), Depth: 4, MinPrefix: 2, Modes: []int{modeFloat}, CoreDocs: true},
+		// long paths over the small alphabet (every check keeps these in the quick tier)
+		{Alpha: gen.SigmaSmall(), Depth: 5, MinPrefix: 4, Modes: []int{modeFloat}, CoreDocs: true},
 		// every filter atom (and pairwise combinations) applied to the member documents
 		atoms,
 	}
@@ -475,7 +497,7 @@ func shallowQuick(tier string, us []gen.Unit) []gen.Unit {
 	}
 	out := us[:0:0]
 	for _, u := range us {
-		if len(u.L.Fixed) == 0 && len(u.Prefix) >= 3 {
+		if len(u.L.Fixed) == 0 && len(u.Prefix) >= 3 && len(u.L.Alpha) > 8 {
 			continue
 		}
 		out = append(out, u)
